@@ -40,8 +40,11 @@ def main():
                 res[name] = {"status": "patch no longer applies"}
                 continue
             env = dict(os.environ, VERIF_REPO=wt, VERIF_OUT_DIR="/tmp/verif-benignmx-out")
-            row = {}
-            for cid in ALL:
+            row = dict(res.get(name, {})) if isinstance(res.get(name), dict) and "status" not in res.get(name, {}) else {}
+            own = name.split("-")[0]
+            # BENIGN_CHECKS restricts the run (e.g. "own,C15,C18,C20"); rows keep the results of earlier runs for the other checks
+            sel = [own if x == "own" else x for x in os.environ.get("BENIGN_CHECKS", "").split(",") if x] or ALL
+            for cid in [c for c in ALL if c in sel]:
                 c = sh("./check %s quick" % cid, cwd=SNAP, env=env)
                 alarm = c.returncode != 0
                 first = ""
